@@ -1,5 +1,6 @@
 import PepitVerif.Math.CvxSem
 import PepitVerif.Math.Certificate
+import PepitVerif.Math.MatricesSem
 
 /-!
 # Property C01: the returned bound is backed by a complete, checkable dual certificate
@@ -32,3 +33,122 @@ example : recover [10, 11, 12, 13, 14, 15, 16, 17] [.cons 0, .psd 1 2, .cons 2] 
 end Pepit.C01
 
 #print axioms Pepit.C01.routing
+
+/-! ## the reconstruction at the end of `check_feasibility` -/
+
+namespace Pepit.C01
+
+theorem keyValGF_swap (G : Nat → Nat → ℝ) (F : Nat → ℝ) (hG : ∀ i j, G i j = G j i) (k : EKey) :
+    keyValGF G F k.swap = keyValGF G F k := by
+  cases k with
+  | f i => rfl
+  | one => rfl
+  | ip i j => simp [EKey.swap, keyValGF, hG j i]
+
+theorem swap_injective : Function.Injective EKey.swap := by
+  intro a b h
+  cases a <;> cases b <;> simp_all [EKey.swap]
+
+/-- **`symmetrize_dict` does not change what an expression denotes** on symmetric Gram matrices -/
+theorem evalGF_symmetrize (G : Nat → Nat → ℝ) (F : Nat → ℝ) (hG : ∀ i j, G i j = G j i)
+    (d : EDict) (hnd : (Dict.keys d).Nodup) :
+    EDict.evalGF G F (EDict.symmetrize d) = EDict.evalGF G F d := by
+  unfold EDict.evalGF EDict.symmetrize
+  have hk : (Dict.keys (d.map (fun kc => (kc.1.swap, kc.2)))).Nodup := by
+    have : Dict.keys (d.map (fun kc => (kc.1.swap, kc.2))) = (Dict.keys d).map EKey.swap := by
+      simp [Dict.keys, List.map_map, Function.comp_def]
+    rw [this]; exact List.Nodup.map swap_injective hnd
+  rw [Dict.denM_scale, Dict.denM_merge _ _ _ hk, Dict.denM_map_key]
+  have : (fun k => keyValGF G F (EKey.swap k)) = keyValGF G F := by
+    funext k; exact keyValGF_swap G F hG k
+  rw [this]
+  push_cast
+  simp only [smul_eq_mul]
+  ring
+
+theorem absv_nonneg (c : Coef) : 0 ≤ Coef.absv c := by
+  unfold Coef.absv; split
+  · next h => exact le_of_lt (by linarith)
+  · next h => exact not_lt.mp h
+
+theorem absv_eq_zero (c : Coef) (h : Coef.absv c = 0) : c = 0 := by
+  unfold Coef.absv at h; split at h
+  · linarith
+  · exact h
+
+theorem foldl_absv_ge (l : EDict) (a : Coef) : a ≤ l.foldl (fun a kc => a + Coef.absv kc.2) a := by
+  induction l generalizing a with
+  | nil => exact le_refl a
+  | cons kc t ih => exact le_trans (by linarith [absv_nonneg kc.2]) (ih (a + Coef.absv kc.2))
+
+theorem foldl_absv_zero (l : EDict) (h : l.foldl (fun a kc => a + Coef.absv kc.2) 0 = 0) :
+    ∀ kc ∈ l, kc.2 = 0 := by
+  induction l with
+  | nil => intro kc hkc; cases hkc
+  | cons kc t ih =>
+    rw [List.foldl_cons] at h
+    have h1 := foldl_absv_ge t (0 + Coef.absv kc.2)
+    have h2 : Coef.absv kc.2 = 0 := by linarith [absv_nonneg kc.2]
+    intro kc' hkc'
+    rcases List.mem_cons.mp hkc' with rfl | hm
+    · exact absv_eq_zero _ h2
+    · rw [h2, add_zero] at h; exact ih h kc' hm
+
+/-- a dictionary whose only possible key is the constant denotes its constant -/
+theorem evalGF_only_const (G : Nat → Nat → ℝ) (F : Nat → ℝ) (d : EDict) (hnd : (Dict.keys d).Nodup)
+    (h : ∀ kc ∈ d, kc.1 = EKey.one) : EDict.evalGF G F d = (((d.get? EKey.one).getD 0 : ℚ) : ℝ) := by
+  match d, hnd, h with
+  | [], _, _ => simp [EDict.evalGF, Dict.denM, Dict.get?]
+  | [(k, c)], _, h =>
+    have : k = EKey.one := h (k, c) (by simp)
+    subst this
+    simp [EDict.evalGF, Dict.denM, Dict.get?, List.lookup, keyValGF]
+  | (k1, c1) :: (k2, c2) :: t, hnd, h =>
+    have e1 : k1 = EKey.one := h (k1, c1) (by simp)
+    have e2 : k2 = EKey.one := h (k2, c2) (by simp)
+    subst e1; subst e2
+    simp [Dict.keys] at hnd
+
+/-- **what PEPit's own check means**: if `remaining_terms` is `0`, then for every symmetric Gram matrix
+and every vector of function values the expression `objective − combination` evaluates to the returned
+dual value — i.e. the identity `objective − τ = Σ λ·c − ⟨S, G⟩ − Σ⟨Λ, T⟩` of the property holds with `τ`
+the value returned in dual mode -/
+theorem reconstruction_spec (G : Nat → Nat → ℝ) (F : Nat → ℝ) (hG : ∀ i j, G i j = G j i)
+    (ident : EDict) (hnd : (Dict.keys ident).Nodup) (hrem : (EDict.finishReconstruction ident).2 = 0) :
+    EDict.evalGF G F ident = (((EDict.finishReconstruction ident).1 : ℚ) : ℝ) := by
+  unfold EDict.finishReconstruction at hrem ⊢
+  simp only at hrem ⊢
+  set d := Dict.prune (EDict.symmetrize ident) with hd
+  have hsym : EDict.evalGF G F d = EDict.evalGF G F ident := by
+    rw [hd]; unfold EDict.evalGF; rw [Dict.denM_prune]; exact evalGF_symmetrize G F hG ident hnd
+  have hndd : (Dict.keys d).Nodup := by
+    rw [hd]; apply Dict.nodup_keys_prune
+    unfold EDict.symmetrize
+    exact Dict.nodup_keys_scale _ _ (Dict.nodup_keys_merge _ _ hnd)
+  have hzero := foldl_absv_zero _ hrem
+  have honly : ∀ kc ∈ d, kc.1 = EKey.one := by
+    intro kc hkc
+    by_contra hne
+    have hmem : kc ∈ d.filter (fun kc => kc.1 != EKey.one) := by
+      rw [List.mem_filter]; exact ⟨hkc, by simpa using hne⟩
+    have h0 := hzero kc hmem
+    have hnz : kc.2 ≠ 0 := by rw [hd] at hkc; exact Dict.prune_no_zero _ kc hkc
+    exact hnz h0
+  rw [← hsym, evalGF_only_const G F d hndd honly]
+
+/-- non-vacuity: `½·⟨p0,p1⟩ + ½·⟨p1,p0⟩ − ⟨p0,p1⟩ + 3` has remaining terms 0 … after symmetrisation and constant 3 -/
+example : EDict.finishReconstruction [(.ip 0 1, 1), (.ip 1 0, -1), (.one, 3)] = (3, 0) := by decide +kernel
+example : EDict.finishReconstruction [(.ip 0 1, 1), (.one, 3)] = (3, 1) := by decide +kernel
+
+end Pepit.C01
+
+#print axioms Pepit.C01.reconstruction_spec
+#print axioms Pepit.C01.evalGF_symmetrize
+
+namespace Pepit.C01
+/-- the number the source *prints* as `remaining_terms` ignores function-value entries (see
+`EDict.remainingAsPrinted`): it can be `0` while the identity fails — `f₀` alone "reconstructs perfectly" -/
+theorem printed_remaining_is_weaker :
+    EDict.remainingAsPrinted [(.f 0, 1)] = 0 ∧ (EDict.finishReconstruction [(.f 0, 1)]).2 = 1 := by
+  decide +kernel
+end Pepit.C01
